@@ -275,7 +275,7 @@ class HiveParser(parser.Parser):
             return expression
 
         if isinstance(expression, exp.Column):
-            key = expression.this
+            key = expression.this.copy()
         else:
             key = exp.to_identifier(f"col{index + 1}")
 
